@@ -19,7 +19,7 @@ ASSUMPTIONS = [
     "'below a metadata element' = proper descendants of a node named metadata; the metadata node itself is judged",
     "replacement of metadata content keeps the class 'at most one child' / 'more than one child'",
 ]
-REQUIRED = ["second_walks_into_the_same_list", "vocabulary_probes", "trees_with_more_than_5000_errors", "trees_with_repeated_id_strings", "trees", "trees_ge2_invalid_nodes", "trees_invalid_below_metadata", "metamorphic_reruns", "trace_checked",
+REQUIRED = ["vocabulary_attribute_probes", "subtrees_validated_in_place", "metadata_roots", "second_walks_into_the_same_list", "vocabulary_probes", "trees_with_more_than_5000_errors", "trees_with_repeated_id_strings", "trees", "trees_ge2_invalid_nodes", "trees_invalid_below_metadata", "metamorphic_reruns", "trace_checked",
             "failfast_ok_trees", "failfast_failing_trees"]
 EXHAUSTIVE = {"quick": False, "thorough": False}
 
@@ -300,6 +300,42 @@ def run(ctx, params):
         mid.add_child(Node("title"))
         judge(ctx, root, f"vocabulary probe: <{nm}> between the root and invalid nodes")
         ctx.count("vocabulary_probes")
+        emlkit.discard(root)
+    # ... and every element with every attribute its rule declares set to words of the domain (enforced="no", scope="document", ...): what
+    # an element's attributes say changes nothing about the walk through it
+    from vlib import domain
+    for nm in _mr.node_names():
+        declared = list(emlkit.rules_table().get(_mr.node_mappings[nm], [{}])[0])
+        for a in declared:
+            spec_vals = list(emlkit.rules_table()[_mr.node_mappings[nm]][0][a][1:])
+            for w in spec_vals + domain.ATTRIBUTE_WORDS[:24]:
+                root = Node("dataset")
+                mid = Node("".join(list(nm)))            # (a name string made at run time, as importers make them)
+                mid.add_attribute(a, w)
+                root.add_child(mid)
+                low = Node("creator")
+                low.add_child(Node("verifUnknown"))
+                mid.add_child(low)
+                judge(ctx, root, f"vocabulary probe: <{nm} {a}={w!r}> between the root and invalid nodes")
+                ctx.count("vocabulary_attribute_probes")
+                emlkit.discard(root)
+    # subtrees validated in place (the root of the walk has a parent): below every element, and below a metadata island
+    for parent_name in ("metadata", "additionalMetadata", "dataset", "verifUnknown", "".join(list("metadata"))):
+        holder = Node(parent_name)
+        sub = gen.valid_tree("dataset", rng, 12)
+        holder.add_child(sub)
+        sub.add_child(Node("verifUnknown"))
+        judge(ctx, sub, f"subtree validated in place below <{parent_name}>")
+        ctx.count("subtrees_validated_in_place")
+        emlkit.discard(holder)
+    # a metadata element as the root of the walk (name strings made at run time too): nothing below it is looked at
+    for mk in (lambda: "metadata", lambda: "".join(list("metadata"))):
+        root = Node(mk())
+        junk = Node("verifUnknown")
+        junk.add_child(Node("creator"))
+        root.add_child(junk)
+        judge(ctx, root, "metadata element as root")
+        ctx.count("metadata_roots")
         emlkit.discard(root)
     # a very wide table with thousands of stub attributes: many thousands of errors, none of them may be dropped
     wide = Node("attributeList")
